@@ -8,7 +8,9 @@
 (* edges  sequence (one per dimension) of strictly increasing integer      *)
 (*        sequences (ranks of the real numbers: only comparisons are used) *)
 (* flow   sequence of [x |-> coordinates, h |-> has a context, p |-> is a  *)
-(*        (data, context) pair]; a value is identified by its position     *)
+(*        (data, context) pair, f |-> "none" or the name of the exception  *)
+(*        the inner analysis raises when it is filled with this value (a   *)
+(*        truncated record)]; a value is identified by its position        *)
 (* result of an inner analysis for one cell: [t |-> tag, ids |-> positions *)
 (*        seen by the accumulator, src |-> position of the last value with *)
 (*        a context (0: none), mut |-> last write of the context-mutating  *)
@@ -59,6 +61,21 @@ SubFlowUpTo(flow, edges, idx, n) ==
 SubFlow(flow, edges, idx) == SubFlowUpTo(flow, edges, idx, Len(flow))
 
 (***************************************************************************)
+(* Abnormal values.  The inner analysis cannot digest a value with         *)
+(* f # "none": its first element raises that exception before anything is  *)
+(* recorded or written.  A private copy of the analysis run on the         *)
+(* sub-flow of a cell raises at exactly these values; with a caller that   *)
+(* catches the exception and goes on it has recorded the others.           *)
+(* SplitIntoBins is that caller's view of all the private copies: fill()   *)
+(* raises the same exception for exactly the failing values INSIDE the     *)
+(* edges (a value outside the edges never reaches an analysis).            *)
+(***************************************************************************)
+Recorded(flow, sub) == SelectSeq(sub, LAMBDA i : flow[i].f = "none")
+ErrsSem(edges, flow, n) ==
+  LET S == SelectSeq([i \in 1..n |-> i], LAMBDA i : flow[i].f # "none" /\ IsCell(CellOf(flow[i].x, edges), edges)) IN
+  [j \in 1..Len(S) |-> [pos |-> S[j], exc |-> flow[S[j]].f]]
+
+(***************************************************************************)
 (* Inner analyses (binslib.KINDS): what one private copy computes from a   *)
 (* sub-flow given as the sequence of positions sub.                        *)
 (***************************************************************************)
@@ -68,7 +85,7 @@ LastCtx(flow, sub) == IF sub = <<>> THEN 0
                       ELSE IF flow[sub[Len(sub)]].h THEN sub[Len(sub)]
                       ELSE LastCtx(flow, SubSeq(sub, 1, Len(sub) - 1))
 Shift == 100
-InnerSem(kind, flow, sub) ==
+InnerSem0(kind, flow, sub) ==
   LET src == LastCtx(flow, sub)  n == Len(sub) IN
   CASE kind = "collect" -> <<R("c", sub, src, 0)>>
     [] kind = "collect2" -> <<R("c", sub, src, 0), R("cn", <<n>>, src, 0)>>               \* two results
@@ -81,18 +98,50 @@ InnerSem(kind, flow, sub) ==
     [] kind = "postdup" -> <<R("pc", sub, src, 0), R("qc", sub, src, 0),                \* post-element doubles
                              R("pcn", <<n>>, src, 0), R("qcn", <<n>>, src, 0)>>
 
+(***************************************************************************)
+(* Analyses whose compute() changes their own state: what the k-th         *)
+(* compute() of ONE private copy yields depends on the compute() calls it  *)
+(* has served before.  ns[j] = number of flow values filled before the     *)
+(* j-th compute() (j <= k), sub = the values recorded before the k-th.     *)
+(*   "seen"  a post-element counts the results it has processed and        *)
+(*           appends the count to the data: k for the k-th compute()       *)
+(*   "log"   the accumulator yields its own context object (no copy), a    *)
+(*           post-element increments a counter in that object in place;    *)
+(*           the object is replaced when a value with a context is filled: *)
+(*           the count is the number of compute() calls since then         *)
+(* Cells that share state (one object for several cells) show counts that  *)
+(* no private copy can produce.                                            *)
+(***************************************************************************)
+Stateful(kind) == kind \in {"seen", "log"}
+InnerSemH(kind, flow, sub, k, ns) ==
+  LET src == LastCtx(flow, sub) IN
+  CASE kind = "seen" -> <<R("pc", Append(sub, k), src, 0)>>
+    [] kind = "log" -> <<R("c", sub, src, Cardinality({j \in 1..k : ns[j] >= src}))>>
+    [] OTHER -> InnerSem0(kind, flow, sub)
+\* a fresh private copy asked once
+InnerSem(kind, flow, sub) == InnerSemH(kind, flow, sub, 1, <<Len(flow)>>)
+
 Min(S) == CHOOSE m \in S : \A k \in S : m <= k
 \* zip of per-cell result sequences: as many histograms as the shortest of them
 ZipCells(res, cells) == LET n == Min({Len(res[idx]) : idx \in cells}) IN
                         [k \in 1..n |-> [idx \in cells |-> res[idx][k]]]
+\* SplitIntoBins(seq(kind), arg, edges): the k-th compute(), called after ns[k] values of the flow (the
+\* earlier ones after ns[1], .., ns[k-1] values); failing values are caught by the caller
+SIBSemH(kind, edges, flow, ns, k) ==
+  ZipCells([idx \in Cells(edges) |->
+              InnerSemH(kind, flow, Recorded(flow, SubFlowUpTo(flow, edges, idx, ns[k])), k, ns)], Cells(edges))
 \* SplitIntoBins(seq(kind), arg, edges): fill(flow...); compute()
-SIBSem(kind, edges, flow) ==
-  ZipCells([idx \in Cells(edges) |-> InnerSem(kind, flow, SubFlow(flow, edges, idx))], Cells(edges))
+SIBSem(kind, edges, flow) == SIBSemH(kind, edges, flow, <<Len(flow)>>, 1)
 \* the inside value filled last (0: none): its context is the one the histograms carry
 RECURSIVE LastInside(_, _, _)
 LastInside(flow, edges, n) == IF n = 0 THEN 0
                               ELSE IF IsCell(CellOf(flow[n].x, edges), edges) THEN n
                               ELSE LastInside(flow, edges, n - 1)
+\* the same among the values the analyses could digest
+RECURSIVE LastInsideGood(_, _, _)
+LastInsideGood(flow, edges, n) == IF n = 0 THEN 0
+                                  ELSE IF IsCell(CellOf(flow[n].x, edges), edges) /\ flow[n].f = "none" THEN n
+                                  ELSE LastInsideGood(flow, edges, n - 1)
 
 (***************************************************************************)
 (* Contexts.  A context of the harness is [src |-> position of the value   *)
@@ -106,14 +155,18 @@ LastInside(flow, edges, n) == IF n = 0 THEN 0
 (***************************************************************************)
 Ctx(src, mut) == [src |-> src, mut |-> mut]
 ArrivingCtx(flow, i) == Ctx(IF flow[i].h THEN i ELSE 0, 0)
-HistCtxSem(edges, flow) == LET l == LastInside(flow, edges, Len(flow)) IN
-                           IF l = 0 THEN Ctx(0, 0) ELSE ArrivingCtx(flow, l)
+HistCtxAt(flow, l) == IF l = 0 THEN Ctx(0, 0) ELSE ArrivingCtx(flow, l)
+\* (as the code does it: the context is kept after the cell's fill has returned)
+HistCtxSem(edges, flow) == HistCtxAt(flow, LastInsideGood(flow, edges, Len(flow)))
+\* The statement does not say whether an inside value on which the cell's analysis raised counts as
+\* "filled last": both are allowed (one and the same when no value fails).
+HistCtxSet(edges, flow) == {HistCtxSem(edges, flow), HistCtxAt(flow, LastInside(flow, edges, Len(flow)))}
 Mutates(kind) == kind = "mutate"
 \* (p: the value is a (data, context) pair - possibly with an empty context {} of its own, which a
 \* mutating inner element then writes into; a bare value has no context object of its own)
 FlowCtxSem(kind, edges, flow) ==
   [i \in 1..Len(flow) |->
-     IF Mutates(kind) /\ flow[i].p /\ IsCell(CellOf(flow[i].x, edges), edges)
+     IF Mutates(kind) /\ flow[i].p /\ flow[i].f = "none" /\ IsCell(CellOf(flow[i].x, edges), edges)
      THEN Ctx(ArrivingCtx(flow, i).src, i) ELSE ArrivingCtx(flow, i)]
 
 (***************************************************************************)
@@ -121,6 +174,14 @@ FlowCtxSem(kind, edges, flow) ==
 (***************************************************************************)
 IterSem(h, edges) == [n \in 1..Len(CellSeq(edges)) |->
                         LET idx == CellSeq(edges)[n] IN [idx |-> idx, e |-> CellEdges(idx, edges), content |-> h[idx]]]
+\* context.bin of a yielded cell describes the cell: its edges, and their rendering (edges_str) in terms
+\* of the variable the histogram IT comes from was split by (var: the name(s) in context.variable of that
+\* histogram).  IterateBins keeps nothing from one histogram (or one run) to the next: what it yields
+\* for a histogram is a function of that histogram alone.
+BinSem(idx, edges, var) == [e |-> CellEdges(idx, edges), var |-> var]
+IterSemV(h, edges, var) == [n \in 1..Len(CellSeq(edges)) |->
+                             LET idx == CellSeq(edges)[n] IN
+                             [idx |-> idx, e |-> CellEdges(idx, edges), content |-> h[idx], bin |-> BinSem(idx, edges, var)]]
 \* re-tagging done by binslib.PostTag
 PTag(t) == CASE t = "c" -> "pc" [] t = "cn" -> "pcn" [] t = "pc" -> "ppc" [] t = "qc" -> "pqc"
              [] t = "pcn" -> "ppcn" [] t = "qcn" -> "pqcn"
